@@ -215,7 +215,8 @@ UNITS.append(
         requires=[c for c in ADMISSIBLE if "bmin" not in c and "Lmin" not in c],
         ensures={**PLAN_POST, **BIN_C02, **BIN_C03},
         post_hook=bin_ghost,
-        opts={"ghost_defs": GD},
+        returns=plan_result,
+        opts={"ghost_defs": GD, "callee": True, "call_ensures": CALL_ENS},
     )
 )
 
@@ -226,7 +227,7 @@ GD.update(
         # opaque: bins carry K == NAVGE(L) by congruence; the definition is revealed only where it is needed
         "NAVGE": {
             "opaque": "lambda l: ite(rhe((N - l) / ((1 - olap) * l) + 1) <= N - l + 1, rhe((N - l) / ((1 - olap) * l) + 1), N - l + 1)",
-            "reveal": [".count", "lemma.navg_capped", "lemma.shift_at_least_one"],
+            "reveal": [".count", "lemma.closed_form", "lemma.navg_capped", "lemma.shift_at_least_one"],
         },
         "SHIFTV": "lambda l, k: ite(k > 1, (N - l) / (k - 1), 0)",
     }
@@ -290,7 +291,8 @@ UNITS.append(
         loops=NEW_LOOPS,
         ensures={**PLAN_POST, **V_LEMMAS, **BIN_C02, **BIN_C03},
         post_hook=bin_ghost,
-        opts={"ghost_defs": GD, "callee": False},
+        returns=plan_result,
+        opts={"ghost_defs": GD, "callee": True, "call_ensures": CALL_ENS},
         raises={},
     )
 )
@@ -323,6 +325,7 @@ VEC_LOOPS = {
     ),
 }
 BIN_C03V = {k: v for k, v in BIN_C03.items() if k != "C03.bmin_up_to_rounding_of_L"}
+CALL_ENS_V = {k: v for k, v in CALL_ENS.items() if k != "C03.bmin_up_to_rounding_of_L"}
 
 UNITS.append(
     Unit(
@@ -336,14 +339,16 @@ UNITS.append(
         loops=VEC_LOOPS,
         ensures={**PLAN_POST, **V_LEMMAS, **BIN_C02, **BIN_C03V},
         post_hook=bin_ghost,
+        returns=plan_result,
         opts={
             "ghost_defs": GD,
-            "callee": False,
+            "callee": True,
+            "call_ensures": CALL_ENS_V,
             "cuts": {
                 "lengths": dict(
                     at="L_grid[K_grid == 1] = N",
-                    havoc=["L_grid"],
-                    **{"assert": {"integral_in_range": "forall(0, len(L_grid), lambda g: L_grid[g] == floor(L_grid[g]) and 1 <= L_grid[g] and Lmin <= L_grid[g] and L_grid[g] <= N)",
+                    havoc_int_valued=["L_grid"],
+                    **{"assert": {"in_range": "forall(0, len(L_grid), lambda g: 1 <= L_grid[g] and Lmin <= L_grid[g] and L_grid[g] <= N)",
                     "single_uses_record": "forall(0, len(L_grid), lambda g: L_grid[g] == N if rhe((N - L_grid[g]) / (xov * L_grid[g]) + 1) == 1 else True)"}},
                 ),
                 "maps": dict(at=["K_map = np.minimum(K_map, N - L_map + 1)", "L_map = L_grid.astype(np.int64)"], havoc=["r_map", "K_map", "L_map"], **{"assert": MAP_FACTS}),
